@@ -347,7 +347,12 @@ def g_angle(rng, lo=-360.0, hi=720.0):
     return {'Angle': rng.uniform(lo, hi)}
 
 
+WIDE = False      # set by harness/history.py: draw years and epochs from the whole calendar
+
+
 def g_epoch(rng, ylo=1800, yhi=2200):
+    if WIDE and rng.random() < 0.4:
+        return {'Epoch': round(rng.uniform(0.0, 3912880.0), rng.choice([0, 1, 6]))}
     if rng.random() < 0.25 and ylo <= 1582 <= yhi or (ylo <= 1900 and yhi >= 2030 and rng.random() < 0.25):
         v = rng.choice([x for x in JDE_B if (ylo - 2000) * 365.25 + 2451545 <= x <= (yhi - 2000) * 365.25 + 2451545] or [2451545.0])
         return {'Epoch': v}
@@ -430,6 +435,10 @@ def by_name(rng, fq, p, doc):
         hot = [x for x in HOT['ints'] if 1 <= x <= 3000]
         if hot and rng.random() < 0.3:
             return rng.choice(hot)
+        if WIDE and rng.random() < 0.5:
+            # history noise: the whole calendar, with Julian-calendar and century years well represented
+            return rng.choice([rng.randint(-4712, 6000), rng.choice([-4712, -4, 0, 4, 100, 900, 1000, 1404, 1500, 1581,
+                                                                         1582, 1700, 1900, 2100, 2400]), rng.randint(1, 1582)])
         return rng.choice([1900, 2000, 2024, 1999, 1582, 1583, 2100, rng.randint(1600, 2200)])
     if p in ('month', 'mm'):
         return rng.randint(1, 12)
